@@ -13,7 +13,9 @@ import (
 	"flag"
 	"fmt"
 	"os"
+	"runtime"
 	"strings"
+	"time"
 
 	"github.com/rs/zerolog"
 	"verifharness/prog"
@@ -62,6 +64,7 @@ func ctxVal(c context.Context) int {
 }
 
 func (h hookRec) Run(e *zerolog.Event, l zerolog.Level, m string) {
+	e.Int(fmt.Sprintf("h%d", h.id), 1) // visible in the event: the order of ALL hooks (user and library) is read off the line
 	*h.log = append(*h.log, h.id)
 	*h.ctx = append(*h.ctx, ctxVal(e.GetCtx()))
 }
@@ -86,6 +89,62 @@ func fieldIDs(line []byte) []int {
 	}
 	return ids
 }
+
+// hookObs: what an event shows of its hooks, in order: h<n> (user hook n) as n, the time field as -1, the caller field as
+// -(10+k) where k says which function of the call tower t0 <- t1 <- t2 <- t3 it names.
+func hookObs(line []byte) []int {
+	obs := []int{}
+	dec := json.NewDecoder(bytes.NewReader(line))
+	if t, err := dec.Token(); err != nil || t != json.Delim('{') {
+		return obs
+	}
+	for dec.More() {
+		kt, err := dec.Token()
+		if err != nil {
+			break
+		}
+		key, _ := kt.(string)
+		var val json.RawMessage
+		if dec.Decode(&val) != nil {
+			break
+		}
+		var n int
+		switch {
+		case key == "time":
+			obs = append(obs, -1)
+		case key == "caller":
+			var c string
+			json.Unmarshal(val, &c)
+			if len(c) == 2 && c[0] == 't' {
+				obs = append(obs, -(10 + int(c[1]-'0')))
+			} else {
+				obs = append(obs, -99)
+			}
+		case strings.HasPrefix(key, "h"):
+			if _, err := fmt.Sscanf(key[1:], "%d", &n); err == nil {
+				obs = append(obs, n)
+			}
+		}
+	}
+	return obs
+}
+
+// the call tower: the probe event is sent from t0, which is called by t1, t2, t3, so that a caller hook registered with k
+// more frames to skip names t<k>
+//
+//go:noinline
+func t0(l *zerolog.Logger, nested *[]int) {
+	l.Warn().Array("arr", zerolog.Arr().Object(ctxProbe{nested})).Dict("dict", zerolog.Dict().Object("o", ctxProbe{nested})).Msg("w")
+}
+
+//go:noinline
+func t1(l *zerolog.Logger, nested *[]int) { t0(l, nested) }
+
+//go:noinline
+func t2(l *zerolog.Logger, nested *[]int) { t1(l, nested) }
+
+//go:noinline
+func t3(l *zerolog.Logger, nested *[]int) { t2(l, nested) }
 
 var pad = strings.Repeat("x", 150)
 
@@ -124,6 +183,16 @@ func play(sc Script, out *bufio.Writer) {
 			destOf[st.J] = destOf[st.I]
 		case "Hook":
 			slots[st.J] = slot{kind: "L", l: src.l.Hook(hookRec{st.A, &hookLog, &hookCtx})}
+			destOf[st.J] = destOf[st.I]
+		case "CtxHook":
+			switch {
+			case st.A == -1:
+				slots[st.J] = slot{kind: "C", c: src.c.Timestamp()}
+			case st.A == -10 && n%2 == 0:
+				slots[st.J] = slot{kind: "C", c: src.c.Caller()}
+			default:
+				slots[st.J] = slot{kind: "C", c: src.c.CallerWithSkipFrameCount(zerolog.CallerSkipFrameCount + (-st.A - 10))}
+			}
 			destOf[st.J] = destOf[st.I]
 		case "Output":
 			d := &dest{id: n + 1}
@@ -168,7 +237,7 @@ func play(sc Script, out *bufio.Writer) {
 				d.lines = nil
 			}
 			hookLog, hookCtx = nil, nil
-			l.Warn().Array("arr", zerolog.Arr().Object(ctxProbe{&nested})).Dict("dict", zerolog.Dict().Object("o", ctxProbe{&nested})).Msg("w")
+			t3(&l, &nested)
 			got := -1
 			var line []byte
 			total := 0
@@ -182,6 +251,7 @@ func play(sc Script, out *bufio.Writer) {
 			rec["dest"] = got
 			rec["fields"] = fieldIDs(line)
 			rec["hooks"] = append([]int{}, hookLog...)
+			rec["hookobs"] = hookObs(line)
 			rec["hookctx"] = append([]int{}, hookCtx...)
 			rec["nested"] = append([]int{}, nested...)
 			rec["debug"] = wroteDebug
@@ -231,6 +301,14 @@ var errProbe = errors.New("probe")
 
 func main() {
 	zerolog.ErrorStackMarshaler = func(err error) interface{} { return "stk" }
+	zerolog.TimestampFunc = func() time.Time { return time.Unix(981173106, 0).UTC() }
+	zerolog.CallerMarshalFunc = func(pc uintptr, file string, line int) string {
+		name := ""
+		if f := runtime.FuncForPC(pc); f != nil {
+			name = f.Name()
+		}
+		return name[strings.LastIndex(name, ".")+1:]
+	}
 	in := flag.String("scripts", "", "")
 	outp := flag.String("out", "hist.ndjson", "")
 	flag.Parse()
